@@ -1,10 +1,12 @@
 import SycVerif.Driver.Route
+import SycVerif.Driver.Num
 /-! Native driver: one request per line on stdin (`<engine> <op> <args…>`), one reply per line. -/
 open SycVerif.Driver
 
 def dispatch (line : String) : String :=
   match line.trimAscii.toString.splitOn " " with
   | "route" :: args => Route.handle args
+  | "num" :: args => Num.handle args
   | _ => "bad-op"
 
 partial def loop (h : IO.FS.Stream) (out : IO.FS.Stream) : IO Unit := do
